@@ -243,9 +243,38 @@ def big_multi_a(c):
             check_tree(c, t, True, "multi_a-%d" % n)
 
 
+def raw_keyhash_texts(c):
+    """C13-F1 (fix keyhash-raw-hex): pk_h / pkh given exactly 40 characters takes them as a raw 20-byte hash. Hex of
+    either case must compile to the push of those 20 bytes (through the model: tokens carry the bytes); 40 characters
+    that are not hex were accepted by the parser and compile() raised binascii.Error - whatever is accepted must
+    compile (the predicate on embit itself, no model involved)."""
+    hexs = [msgen.raw_hash(0).hex(), msgen.raw_hash(1).hex().upper(), "aBcDeF0123456789" * 2 + "AbCdEf01", "AB" * 20]
+    bad = ["z" * 40, "ab" * 19 + "zz", "zz" + "ab" * 19, "ab" * 10 + "g" + "ab" * 9 + "a", "AB" * 19 + "A ",
+           "0x" + "ab" * 19, "ab" * 19 + "a\x1f", "\u00e9" * 40]
+    for tap in (False, True):
+        ctx = "tap" if tap else "wsh"
+        for (f, pre, tpre) in (("pkh", "", ""), ("pk_h", "c:", "c: "), ("pk_h", "", "")):
+            for h in hexs:
+                check_case(c, "%s%s(%s)" % (pre, f, h), "%s%s %s" % (tpre, f, h.lower()), ctx, "raw-keyhash", 1)
+            for h in bad:
+                ms_text = "%s%s(%s)" % (pre, f, h)
+                r = impl_eval(ms_text, tap)
+                info = {"ctx": ctx, "ms": ms_text, "kind": "raw-keyhash-nonhex", "descriptor": desc_text(ms_text, tap)}
+                c.count((ctx, ms_text), nontrivial=False)
+                c.tally("%s:raw-keyhash-nonhex:%s" % (ctx, "accepted" if r["accept"] else "rejected"))
+                if r.get("timeout"):
+                    c.fail("embit did not answer within 20 s", dict(info, op="timeout"))
+                elif r["accept"] and r["d_compile"] is None:
+                    c.fail("accepted miniscript does not compile: %s" % r.get("d_error"), dict(info, op="ms.script"))
+                elif r["built"] and r["verify"] and r["compile"] is None:
+                    c.fail("Miniscript.read_from built a verified expression that does not compile",
+                           dict(info, op="ms.compile"))
+
+
 def corpus(c):
     for (t, tap, tag) in witnesses():
         check_tree(c, t, tap, "witness:" + tag)
+    raw_keyhash_texts(c)
     p = os.path.join(VERIF, "corpus", "C13.json")
     if os.path.exists(p):
         for e in json.load(open(p)):
